@@ -9,6 +9,8 @@
 //	runner  async.RunnerQ (same package as async.Q, uses it through its methods): calls queued behind a running one, then
 //	        Stop: every queued call is still executed (the loop drains with PopAnyway) and the loop ends; Stop with an
 //	        idle loop blocked in PopAnyway: the loop ends
+//	runnercap  (sequential) the queue size a RunnerQ is built with: size 0 or negative = unbounded (more than DefaultQSize
+//	        calls are accepted), the default and explicit positive sizes refuse exactly the call after the capacity
 //	wake    one consumer and one producer released together: once the add has returned the consumer returns the item;
 //	        k consumers and a Close released together: once Close has returned every consumer leaves
 //
@@ -157,7 +159,7 @@ func Valid(class, kind string) bool {
 		return kind == "syncq"
 	case "wake":
 		return kind == "q" || kind == "async" || kind == "mux" || kind == "mq" || kind == "syncq"
-	case "runner":
+	case "runner", "runnercap":
 		return kind == "async"
 	}
 	return false
@@ -239,6 +241,8 @@ func Run(class, kind string, rounds int) *Violation {
 			v = wakeRound(kind, round)
 		case "runner":
 			v = runnerRound(round)
+		case "runnercap":
+			v = runnerCapRound(round)
 		}
 		if v != nil {
 			v.What = fmt.Sprintf("round %d: %s", round, v.What)
@@ -519,6 +523,47 @@ func runnerRound(round int) *Violation {
 	}
 	if int(ran) != m {
 		return &Violation{"RunnerQ.Stop:queued-call-lost", fmt.Sprintf("%d calls were accepted before Stop, %d were executed", m, ran)}
+	}
+	return nil
+}
+
+// runnerCapRound: RunnerQ passes its size option to async.NewQ, whose contract is "0 (or negative) = no limit".
+// Calls are issued with an already cancelled context: the add happens first, then the caller returns ctx.Err().
+func runnerCapRound(round int) *Violation {
+	ctx, cancel := context.WithCancel(context.Background())
+	cancel()
+	var ran int64
+	fill := func(r *async.RunnerQ, n int) (accepted int, firstRefusal string) {
+		for i := 0; i < n; i++ {
+			_, err := r.AsyncProc(ctx, gateProc{nil, &ran})
+			switch {
+			case err == context.Canceled:
+				accepted++
+			case firstRefusal == "":
+				firstRefusal = errs(err, async.ErrClosed, async.ErrFull)
+			}
+		}
+		return
+	}
+	for _, size := range []int{0, -1, -8192} {
+		r := async.NewRunnerQ(async.WithQSize(size))
+		n := async.DefaultQSize + 10
+		if acc, ref := fill(r, n); acc != n {
+			return &Violation{"RunnerQ.Add:size-0-is-not-unbounded", fmt.Sprintf("NewRunnerQ(WithQSize(%d)) — 0 or less means no limit — accepted %d of %d calls, then answered %s (Size()=%d)", size, acc, n, ref, r.Size())}
+		}
+		if r.Size() != 0 {
+			return &Violation{"RunnerQ.Size:value", fmt.Sprintf("NewRunnerQ(WithQSize(%d)).Size() = %d, the queue is unbounded", size, r.Size())}
+		}
+	}
+	for _, size := range []int{1, 5, async.DefaultQSize} {
+		r := async.NewRunnerQ(async.WithQSize(size))
+		if acc, ref := fill(r, size+3); acc != size || ref != "full" {
+			return &Violation{"RunnerQ.Add:full-iff-at-capacity", fmt.Sprintf("NewRunnerQ(WithQSize(%d)): %d of %d calls accepted, first refusal %q", size, acc, size+3, ref)}
+		}
+	}
+	r := async.NewRunnerQ()
+	if acc, ref := fill(r, async.DefaultQSize+3); acc != async.DefaultQSize || ref != "full" || r.Size() != async.DefaultQSize {
+		return &Violation{"RunnerQ.Add:full-iff-at-capacity", fmt.Sprintf("NewRunnerQ() (default size %d): %d calls accepted, first refusal %q, Size()=%d", async.DefaultQSize, acc, ref, r.Size())}
 	}
 	return nil
 }
